@@ -723,6 +723,17 @@ fn run(name: &str, j: &J) -> Result<bool, String> {
             println!("  {} is_subset_of int: {}", f2, sub);
             Ok(!sub)
         }
+        // C18: a zero budget must give an Err, not a panic
+        "c18_zero_budget" => {
+            use qrlew::{hierarchy::Hierarchy, expr::Identifier, sql::parse, differential_privacy::DpParameters};
+            use std::sync::Arc;
+            let t: Relation = Relation::table().name("t").schema(vec![("id", DataType::integer_interval(0, 100)), ("k", DataType::integer()), ("a", DataType::float_interval(0., 10.))].into_iter().collect::<Schema>()).size(100).build();
+            let relations: Hierarchy<Arc<Relation>> = vec![t].iter().map(|t| (Identifier::from(t.name()), Arc::new(t.clone()))).collect();
+            let relation = Relation::try_from(parse(j["query"].as_str().unwrap_or("SELECT k, sum(a) AS s FROM t GROUP BY k")).map_err(|e| e.to_string())?.with(&relations)).map_err(|e| e.to_string())?;
+            let r = relation.rewrite_with_differential_privacy(&relations, None, PrivacyUnit::from(vec![("t", vec![], "id")]), DpParameters::from_epsilon_delta(f(j, "epsilon"), f(j, "delta")));
+            println!("  epsilon = {}, delta = {}: {:?}", f(j, "epsilon"), f(j, "delta"), r.as_ref().map(|x| x.dp_event().to_string()).map_err(|e| e.to_string()));
+            Ok(true)
+        }
         _ => Err(format!("unknown replay `{}`", name)),
     }
 }
